@@ -192,13 +192,11 @@ impl Chunk {
         let start = *range.start();
         let end = *range.end();
         let start_span = self.get_span(start)?;
-
-        // Fast path: single instruction, no expansion needed
-        if start == end {
-            return Some(start_span.clone());
-        }
-
-        let end_span = self.get_span(end)?;
+        // A fused instruction has one span per path element: the expression ends with the last one
+        let end_span = self
+            .instructions
+            .get(end as usize)
+            .and_then(|(_, spans)| spans.last())?;
         let mut expanded = start_span.clone();
         expanded.expand(end_span);
         Some(expanded)
